@@ -109,6 +109,15 @@ Theorem C28_blockdim_unknown_returns_operand_or_refuses :
     (all_same_length ds = false -> coarse_blockdim_u pick ds = Refuse ValueError).
 Proof. exact blockdim_unknown_full. Qed.
 
+(* (after the repair of finding C28-F33) a multi-block layout with an unknown size is never unified with a different
+   layout — in particular not with a known single chunk of length > 1, which would be paired whole with every block *)
+Theorem C28_common_blockdim_refuses_unknown_next_to_other_layout :
+  forall ds d x,
+    In d ds -> ontrivial d = true -> has_nan d = true -> In x ds -> x <> d ->
+    common_blockdim_u ds = Refuse ValueError.
+Proof. exact common_blockdim_u_refuses_other. Qed.
+Print Assumptions C28_common_blockdim_refuses_unknown_next_to_other_layout.
+
 (* REFUTED without the alignment hypothesis (finding F32): two operands both advertising
    (nan, nan), each sound for its own true layout, same axis length, different block sizes
    ((2,1) vs (1,2)): as a set they are the single layout (nan, nan); both blockdim functions
@@ -209,9 +218,9 @@ Example C28_ex_slice_guard_equivalent_full_slice_refused :
 Proof. vm_compute. reflexivity. Qed.
 Example C28_ex_slice_guard_int : slice_guard [[Some 2]; [None]] [LSlice colon; LInt 0] = Refuse ValueError.
 Proof. vm_compute. reflexivity. Qed.
-Example C28_ex_common_single_nontrivial :
-  common_blockdim_u [[None; None]; [Some 2]] = Proceed [None; None].
-Proof. vm_compute. reflexivity. Qed.
+Example C28_ex_common_single_chunk_vs_unknown_refused :
+  common_blockdim_u [[None; None]; [Some 2]] = Refuse ValueError /\ common_blockdim_u [[None; None]] = Proceed [None; None].
+Proof. vm_compute. split; reflexivity. Qed.
 Example C28_ex_common_refuses :
   common_blockdim_u [[None; None]; [Some 1; Some 1]] = Refuse ValueError.
 Proof. vm_compute. reflexivity. Qed.
